@@ -26,9 +26,10 @@ FLOORS = {"declared-scripts": 0.188, "no-languagesystem": 0.1, "two-scripts-with
 
 POOL = [("A", 0x41), ("a", 0x61), ("be-cy", 0x431), ("ie-cy", 0x435), ("alef-ar", 0x627), ("beh-ar", 0x628), ("bet-hb", 0x5D1), ("ka-deva", 0x915), ("period", 0x2E),
         ("apostrophemod", 0x2BC), ("acutecomb", 0x301), ("fatha-ar", 0x64E), ("anusvara-deva", 0x902),
-        ("a-hira", 0x3042), ("ka-kata", 0x30AB), ("Gamma", 0x393), ("de-cy", 0x434)]
+        ("a-hira", 0x3042), ("ka-kata", 0x30AB), ("Gamma", 0x393), ("de-cy", 0x434),
+        ("a-osage", 0x104B0), ("ai-osage", 0x104B1), ("ko-lao", 0xE81), ("kho-lao", 0xE82)]  # a supplementary-plane script and one with a three-letter OpenType tag
 MARKS = {"acutecomb", "fatha-ar", "anusvara-deva"}
-TAGS = ["latn", "arab", "cyrl", "hebr", "dev2", "deva", "kana", "grek"]
+TAGS = ["latn", "arab", "cyrl", "hebr", "dev2", "deva", "kana", "grek", "osge", "lao"]
 
 
 @st.composite
@@ -65,7 +66,7 @@ def _font(draw):
     for t in tags:
         stmts.append("languagesystem %s dflt;\n" % t)
         if draw(st.sampled_from([True, False, False])):
-            for lang in draw(st.lists(st.sampled_from(["MAR ", "TRK ", "URD ", "AZE ", "JAN "]), min_size=1, max_size=2, unique=True)):
+            for lang in draw(st.lists(st.sampled_from(["MAR ", "TRK ", "URD ", "AZE ", "JAN ", "KUY "]), min_size=1, max_size=2, unique=True)):
                 stmts.append("languagesystem %s %s;\n" % (t, lang))
     if len(stmts) > 1 and draw(st.sampled_from([True, False])):
         # any declaration order: a script's languages before its dflt, scripts interleaved (only DFLT dflt has to come first)
@@ -151,7 +152,7 @@ def run_case(case, ctx):
     scx = {g["name"]: set().union(*[set(ud.script_extension(chr(u))) for u in g["unicodes"]]) if g["unicodes"] else set() for g in spec["glyphs"]}
     declared = {}
     for m in re.finditer(r"languagesystem\s+(\S+)\s+(\S+)\s*;", spec["features"]):
-        declared.setdefault(m.group(1), set()).add(m.group(2).strip())
+        declared.setdefault(m.group(1).ljust(4), set()).add(m.group(2).strip())  # OpenType tags are space-padded to four characters
     # scripts the kern writer registers by its documented rule: an exported glyph belonging to that script alone
     single = {next(iter(s)) for n, s in scx.items() if n not in skip and len(s) == 1}
     # ... or a script declared through (another) one of its OpenType tags (e.g. dev2 declared, deva not)
